@@ -469,8 +469,10 @@ def mat_unit(exp, name, deg, lsd):
         matcore.add_mat_mul(u, ms)
         if ms.n == 4:
             affcore.add_mul_point(u, ms, 'mul_point', VEC['Vec3'], VEC['Vec4'], 1)
+            affcore.add_mul_point(u, ms, 'mul_direction', VEC['Vec3'], VEC['Vec4'], 0)      # sibling helpers: keep the unit deciding
         if ms.n == 3:
             affcore.add_mul_point(u, ms, 'mul_point_2d', VEC['Vec2'], VEC['Vec3'], 1)
+            affcore.add_mul_point(u, ms, 'mul_direction_2d', VEC['Vec2'], VEC['Vec3'], 0)
     la = affine_lemma(deg)
     u.add_root(la.verus_text('C14'))
     for dim in (2, 3):
